@@ -5016,7 +5016,16 @@ int main_check_type(module_decl * module_modules, module_decl * module_stdlib, m
 {
     module_decl_check_type(module_modules, module_stdlib, module_nev, result);
 
-    seq_list_func_entry_check_type(module_nev->nev->exprs, result);
+    if (module_nev->nev->exprs != NULL)
+    {
+        seq_list_func_entry_check_type(module_nev->nev->exprs, result);
+    }
+    else
+    {
+        /* a main unit of declarations only has nothing to compile to */
+        *result = TYPECHECK_FAIL;
+        print_error_msg(1, "no function or expression in the main unit");
+    }
 
     return 0;
 }
